@@ -450,12 +450,15 @@ def separating_point(in_side, out_cases, items_all, names, rng, exact, budget=24
 
 def deep_separating(in_side, in_cases, out_tls, out_items, names, exact):
     """complete search for linear systems: exact LP over every way a point can lie in one side and outside the other.
-    the candidate is re-checked with the text interpreter (and the margin rule on the toleranced stream)"""
+    the candidate is re-checked with the text interpreter (and the margin rule on the toleranced stream).
+    -> (pt, a, b, complete): complete=True and pt=None means the two sides are equivalent (the validator is incomplete there)"""
     n = len(names)
     in_sat, in_margin = in_side
     thr = 0 if exact else Fr(1, 10 ** 7)
+    complete = True
     for A, B in ((in_cases, out_items), (out_items, in_cases)):
-        pt = U.lp_in_A_not_B(A, B, n, thr)
+        pt, done = U.lp_in_A_not_B(A, B, n, thr)
+        complete = complete and done
         if pt is None:
             continue
         env = env_of(names, pt)
@@ -463,8 +466,9 @@ def deep_separating(in_side, in_cases, out_tls, out_items, names, exact):
             continue
         a = in_sat(pt); b = U.sat_cases(out_tls, env)
         if a != b:
-            return pt, a, b
-    return None, None, None
+            return pt, a, b, complete
+        complete = False      # the LP (on the translated forms) and the text interpreter disagree: not a verdict
+    return None, None, None, complete
 
 
 def pt_json(pt):
@@ -586,14 +590,15 @@ def post_simplify(rec, replies, rng, hist, findings):
         eff = [U.pitem(i) for i in rec["eff_items"]]
         if not (exact and acc2):
             # strongest true variant inside the class: the result must be equivalent to the input after the known mis-step
+            done2 = False
             pt2, a2, b2, _ = separating_point(item_side(rec["eff_items"]), rec["out_tls"], items_all + rec["eff_items"], names, rng, exact)
             if pt2 is None and (exact or not U.dnf_equiv([U.canon_sys(c) for c in U.expand(rec["eff_items"], n)], tout, TOL)):
-                pt2, a2, b2 = deep_separating(item_side(rec["eff_items"]), U.expand(rec["eff_items"], n), rec["out_tls"], rec["out_items"], names, exact)
+                pt2, a2, b2, done2 = deep_separating(item_side(rec["eff_items"]), U.expand(rec["eff_items"], n), rec["out_tls"], rec["out_items"], names, exact)
             if pt2 is not None:
                 findings.append(Finding("monitor", "simplify/known-class/other-defect",
                                         "beyond the known defect (%s): effective input holds=%r returned holds=%r at %s=%s" % (keys, a2, b2, names, pt_json(pt2)),
                                         case_of(rec, {"point": pt_json(pt2), "effective_input": eff})))
-            elif exact:
+            elif exact and not done2:     # (done2: complete search, equivalent although the validator cannot see it)
                 findings.append(Finding("correspondence", "simplify/known-class/validator-reject",
                                         "validator rejects the returned text against the effective input, no separating point found",
                                         case_of(rec, {"effective_input": eff, "reply": replies[1]})))
@@ -611,7 +616,7 @@ def post_simplify(rec, replies, rng, hist, findings):
                                 case_of(rec, {"point": pt_json(pt), "validator": replies[0][:300]})))
     elif (exact and not accept) or (not exact and not approx):
         # the validator (its tolerance twin) rejects: complete search by exact LP before giving up
-        pt, a, b = deep_separating(text_side(rec["in_tls"], names), U.expand(rec["in_items"], n), rec["out_tls"], rec["out_items"], names, exact)
+        pt, a, b, done = deep_separating(text_side(rec["in_tls"], names), U.expand(rec["in_items"], n), rec["out_tls"], rec["out_items"], names, exact)
         hist["simplify:deep-search"] = hist.get("simplify:deep-search", 0) + 1
         if pt is not None and not exact:
             findings.append(Finding("monitor", "simplify/not-equivalent/%s/toleranced" % kindtag,
@@ -623,9 +628,12 @@ def post_simplify(rec, replies, rng, hist, findings):
             findings.append(Finding("monitor", "simplify/not-equivalent/%s/exact" % kindtag,
                                     "input holds=%r, returned text holds=%r at %s=%s" % (a, b, names, pt_json(pt)),
                                     case_of(rec, {"point": pt_json(pt), "validator": replies[0][:300]})))
+        elif done:
+            # complete LP search: the two texts ARE equivalent, the (sound, incomplete) validator cannot see it
+            hist["simplify:exact:equivalent-by-complete-search"] = hist.get("simplify:exact:equivalent-by-complete-search", 0) + 1
         else:
             findings.append(Finding("correspondence", "simplify/validator-reject/%s" % kindtag,
-                                    "validator rejects, no separating point found", case_of(rec, {"reply": replies[0]})))
+                                    "validator rejects, no separating point found (search budget exhausted)", case_of(rec, {"reply": replies[0]})))
     return nontrivial
 
 
@@ -908,7 +916,14 @@ def post_matrix(rec, replies, rng, hist, findings):
         findings.append(Finding("correspondence", "validator/python-twin-diverges", "matrix: Lean=%r twin=%r" % (acc, twin), dict(case, reply=replies[0])))
     hist["matrix:%s" % ("accept" if acc else "reject")] = hist.get("matrix:%s" % ("accept" if acc else "reject"), 0) + 1
     if not acc and not any(f["class_key"].startswith("linear_symbolic/") and f["case"].get("id") == rec["id"] for f in findings):
-        findings.append(Finding("correspondence", "linear_symbolic/validator-reject", "validator rejects, no separating point found", dict(case, reply=replies[0])))
+        pt, a, b, done = deep_separating(item_side(want_items), [want_items], [rec["out_tls"]], [rec["out_items"]], names, True)
+        if pt is not None:
+            findings.append(Finding("monitor", "linear_symbolic/text-differs-from-matrices",
+                                    "A x = b and G x <= h is %r but the text holds=%r at %s=%s" % (a, b, names, pt_json(pt)), dict(case, point=pt_json(pt))))
+        elif not done:
+            findings.append(Finding("correspondence", "linear_symbolic/validator-reject", "validator rejects, no separating point found", dict(case, reply=replies[0])))
+        else:
+            hist["matrix:equivalent-by-complete-search"] = hist.get("matrix:equivalent-by-complete-search", 0) + 1
     return len(A) + len(G) >= 2
 
 
@@ -988,7 +1003,17 @@ def post_bounds(rec, replies, rng, hist, findings):
     acc = r[1]["accept"] == "true"
     hist["bounds:%s" % ("accept" if acc else "reject")] = hist.get("bounds:%s" % ("accept" if acc else "reject"), 0) + 1
     if not acc and not any(f["class_key"].startswith("symbolic_bounds/") and f["case"].get("id") == rec["id"] for f in findings):
-        findings.append(Finding("correspondence", "symbolic_bounds/validator-reject", "validator rejects, no separating point found", dict(case, reply=replies[0])))
+        z = [Fr(0)] * n
+        want_items = [("lin", "ge", [Fr(0)] + [Fr(int(j == i)) for j in range(n)], [Fr(lo[i])] + z) for i in range(n) if fin(lo[i])] + \
+                     [("lin", "le", [Fr(0)] + [Fr(int(j == i)) for j in range(n)], [Fr(hi[i])] + z) for i in range(n) if fin(hi[i])]
+        pt, a, b, done = deep_separating(item_side(want_items), [want_items], [rec["out_tls"]], [rec["out_items"]], names, True)
+        if pt is not None:
+            findings.append(Finding("monitor", "symbolic_bounds/text-differs-from-box",
+                                    "the point %s=%s is %s the box but the text holds=%r" % (names, pt_json(pt), "inside" if a else "outside", b), dict(case, point=pt_json(pt))))
+        elif not done:
+            findings.append(Finding("correspondence", "symbolic_bounds/validator-reject", "validator rejects, no separating point found", dict(case, reply=replies[0])))
+        else:
+            hist["bounds:equivalent-by-complete-search"] = hist.get("bounds:equivalent-by-complete-search", 0) + 1
     return any(fin(v) for v in lo + hi)
 
 
@@ -1154,7 +1179,7 @@ RULE = ("cases: simplify(all=True) on 1-4 (5 with an added pair) lines over 1-5 
 def main(tier, seed):
     t0 = time.time()
     proof = framework.proof_stage(PID, MODULE, THEOREMS, tier)
-    nshards, per = (16, 36) if tier == "quick" else (64, 260)
+    nshards, per = (16, 100) if tier == "quick" else (64, 300)
     run = framework.run_shards("c12", "run_shard", PID, seed, nshards, per, tier)
     run["findings"] = witnesses() + run["findings"]
 
